@@ -39,6 +39,39 @@ def kind_table(ctx, f, rep, fn, rule):
     return out
 
 
+def _message_param(b):
+    ks = [k for k in range(1, b.argc + 1) if str(b.locals[k]).startswith('payload::Message<')]
+    return ('param', 0, ks[0]) if len(ks) == 1 else None
+
+
+def inlined_feed_table(ctx, f):
+    b = f.fn('Foca::send_message')
+    msg = _message_param(b)
+    if msg is None:
+        return None
+    allk = set(f.variant_names(MESSAGE))
+    feed, other = set(), set()
+
+    def kinds(p, upto):
+        ks = set(allk)
+        for c in q.conds_before(p, upto):
+            vs = q.variant_test(f, c, lambda v: v == msg or (v[0] in ('load', 'fieldv') and q.mentions(v, lambda y: y == msg)))
+            if vs is not None and vs <= allk:
+                ks &= vs
+        return ks
+    for p in ctx.paths(f, b, 'none'):
+        for i, e in enumerate(p.events):
+            if e['kind'] != 'call':
+                continue
+            if e['res'] == 'member::Members::choose_active_members':
+                feed |= kinds(p, i)
+            elif e['res'] == 'broadcast::Broadcasts::fill':
+                other |= kinds(p, i)
+    if not feed or not other or (feed & other):
+        return None
+    return {k: (k in feed) for k in allk}
+
+
 def tables(ctx, f, rep):
     exp = {
         'payload::Message::needs_piggyback': {'Announce', 'TurnUndead', 'Broadcast'},
@@ -56,7 +89,12 @@ def tables(ctx, f, rep):
         got_false = {k for k, v in t.items() if not v}
         rep.check(got_false == false_set, 'C07-R3', fn, 'false exactly for %s' % sorted(false_set),
                   site=f.fn(fn).raw['span'], construct='table', facts={'false_for': sorted(got_false)})
-    t = kind_table(ctx, f, rep, 'payload::Message::piggyback_only_active', 'C07-R3')
+    if 'payload::Message::piggyback_only_active' in f.by_name:
+        t = kind_table(ctx, f, rep, 'payload::Message::piggyback_only_active', 'C07-R3')
+    else:
+        # the predicate was inlined at its only use (`matches!(header.message, Message::Feed)` in send_message): the table is
+        # read off that use - the kinds for which the member section is filled from choose_active_members
+        t = inlined_feed_table(ctx, f)
     res['payload::Message::piggyback_only_active'] = t
     if t is not None:
         got_true = {k for k, v in t.items() if v}
@@ -79,6 +117,13 @@ def pred_conds(p, i, b):
                          'should_add_broadcast_data', 'has_remaining_mut'):
                 out[short] = q.cond_truth(c)
                 out[short + '#arg'] = calls[ex[1]]['args'][-1]
+    if 'piggyback_only_active' not in out and 'payload::Message::piggyback_only_active' not in b.facts.by_name:
+        msg = _message_param(b)
+        for c in q.conds_before(p, i):
+            vs = q.variant_test(b.facts, c, lambda v: msg is not None and (v == msg or (v[0] in ('load', 'fieldv') and
+                                                                              q.mentions(v, lambda y: y == msg))))
+            if vs is not None and (vs == {'Feed'} or 'Feed' not in vs):
+                out['piggyback_only_active'] = (vs == {'Feed'})
     return out
 
 
@@ -224,9 +269,32 @@ def r3_sections(ctx, f, rep, tabs):
     rep.rule('C07-R3', 'kind predicates equal the statement\'s sets (no member section for Announce|TurnUndead|Broadcast, '
                        'no custom items for Announce|TurnUndead, active-members section only for Feed); in send_message '
                        'the member section is guarded by needs_piggyback, the custom section by allow_custom_broadcasts '
-                       'and should_add_broadcast_data(&dst), and nothing else writes to the buffer')
+                       'and should_add_broadcast_data(&dst), nothing else writes to the buffer, and the buffer is cleared right before use')
     b = f.fn('Foca::send_message')
     paths = ctx.paths(f, b, 'none')
+    # the datagram starts empty: send_buf is cleared before it is taken, on every path (it comes back dirty from a send
+    # whose header did not encode - clearing it only after a successful send prefixes the next datagram with that junk)
+    ntk = 0
+    for p in paths:
+        for i, e in enumerate(p.events):
+            if e['kind'] == 'write' and e['place'] == q.self_field('send_buf') and e.get('via') == 'mem::take':
+                ntk += 1
+                cl = [k for k, x in enumerate(p.events[:i]) if x['kind'] == 'call' and x['res'] == 'alloc::vec::Vec::clear'
+                      and x['args'][0] == ('ref', q.self_field('send_buf'), True)]
+                dirty = [k for k, x in enumerate(p.events[:i]) if (x['kind'] == 'write' and x['place'] == q.self_field('send_buf')) or
+                         (x['kind'] == 'call' and x['res'] != 'alloc::vec::Vec::clear' and
+                          any(a in (('ref', q.self_field('send_buf'), True), ('ref', q.SELF, True)) for a in x['args']))]
+                good = bool(cl) and not (dirty and dirty[-1] > cl[-1])
+                if not good:
+                    # ... or right after: the first thing done with the taken Vec is `clear()`
+                    users = [x for x in p.events[i + 1:] if x['kind'] == 'call' and
+                             any(d == e.get('old') for d in (x.get('derefs') or []) if d is not None) or
+                             (x['kind'] == 'call' and e.get('old') in x['args'])]
+                    good = bool(users) and users[0]['res'] == 'alloc::vec::Vec::clear'
+                rep.check(good, 'C07-R3', b.nname, 'the datagram buffer is cleared right before (or right after) it is taken',
+                          site=e['span'], construct='buffer-starts-empty')
+                break
+    rep.floor('C07-R3', ntk, 4, 'send_message paths taking the send buffer')
     msg_place_ok = lambda a: True
     n = {'count': 0, 'fill': 0, 'feed': 0, 'custom': 0}
     writers = set()
@@ -354,7 +422,7 @@ def r4_count(ctx, f, rep):
         for e in p.calls():
             if e['res'] == 'member::Members::choose_active_members':
                 w = e['args'][1]
-                good = q.bounded_by(p, w, 65535)
+                good = q.bounded_by(p, w, 65535, follow=lambda nm: ctx.paths(f, f.fn(nm), 'none') if nm in f.by_name else None)
                 capped += 1
                 if not good:
                     rep.violation('C07-R4', b.nname, 'feed-cap', 'the number of members selected for a Feed is not '
@@ -404,12 +472,21 @@ def r5_agreement(ctx, f, rep, tabs):
                 while v[0] == 'cast':
                     v = v[2]
                 nxt = [x for x in evs[i + 1:] if x['kind'] == 'call' and x['decl'].startswith('bytes::BufMut::put_')]
-                good = v[0] == 'call' and calls[v[1]]['res'] == 'alloc::vec::Vec::len' and nxt and \
-                    nxt[0]['decl'] == 'bytes::BufMut::put_slice'
+                good = v[0] == 'call' and calls[v[1]]['res'] in ('alloc::vec::Vec::len', 'core::slice::<impl [T]>::len') and \
+                    bool(nxt) and nxt[0]['decl'] == 'bytes::BufMut::put_slice'
                 if good:
-                    sl = nxt[0]['args'][1]
-                    good = sl[0] == 'ref' and sl[1][0] == 'deref' and sl[1][1][0] == 'call' and \
-                        buffer_id(calls[sl[1][1][1]]['args'][0]) == buffer_id(calls[v[1]]['args'][0])
+                    # the Vec (or the slice borrowed from it) whose length was written is the one written next
+
+                    def vec_of(x):
+                        for _ in range(6):
+                            if x[0] == 'ref' and x[1][0] == 'deref':
+                                x = x[1][1]
+                            elif x[0] == 'call' and x[1] in calls and calls[x[1]]['res'] == '<alloc::vec::Vec as core::ops::Deref>::deref':
+                                x = calls[x[1]]['args'][0]
+                            else:
+                                break
+                        return buffer_id(x) if x[0] == 'ref' else x
+                    good = vec_of(nxt[0]['args'][1]) == vec_of(calls[v[1]]['args'][0])
                 rep.check(good, 'C07-R5', fl.nname, 'the prefix is the length of exactly the slice written next',
                           site=e['span'], construct='prefix-value')
                 break
@@ -427,10 +504,9 @@ def r5_agreement(ctx, f, rep, tabs):
                 ge2 = any((q.at_least(c, isrem) or (None, 0))[1] == 2 for c in cs)
                 nb = False
                 for c in cs:
-                    es = q.eq_sides(c['expr'])
-                    if es and any(q.is_variant(x, 'Message', 'Broadcast') for x in es[1:]):
-                        # (message != Broadcast) true  or  (message == Broadcast) false
-                        nb = (q.cond_truth(c) != es[0])
+                    kt = q.kind_test(f, c, 'Broadcast')      # `!=`, `!matches!(..)` and `match` alike
+                    if kt is not None:
+                        nb = (kt is False)
                 seen_pred = True
                 rep.check(ge2 and nb, 'C07-R5', hd.nname, 'member section is parsed iff remaining >= 2 and kind != Broadcast',
                           site=e['span'], construct='reader-predicate')
@@ -494,8 +570,9 @@ def r5b_reader_constants(ctx, f, rep):
             es = q.eq_sides(c['expr'])
             if es and any(isrem(x) for x in es[1:]) and any(x[0] == 'const' and x[2] == 1 for x in es[1:]):
                 one = (q.cond_truth(c) == es[0])
-            if es and any(q.is_variant(x, 'Message', 'Announce') for x in es[1:]):
-                ann = (q.cond_truth(c) == es[0])
+            kt = q.kind_test(f, c, 'Announce')
+            if kt is not None:
+                ann = kt
             al = q.at_least(c, isrem)
             if al is not None and al[1] == 1:
                 more = True
